@@ -542,3 +542,74 @@ def compress(sched):
         else:
             out.append([a, 1])
     return out
+
+
+# ------------------------------------------------------------------------------------------
+# a delivery landing at every INSTRUCTION boundary of pending() / wait() / forever().next()
+# (harness/src/bin/p_nested_iter.rs; fork per boundary).  Independent of the hook points; the
+# oracle is the property text itself (the child evaluates it and tags each complaint).
+SWEEP_CONFIGS = [('o', 'p', '-'), ('o', 'p', 's'), ('o', 'p', 't'), ('o', 'p', 'st'), ('o', 'w', 's'), ('o', 'w', 't'), ('o', 'w', 'ts'),
+                 ('o', 'f', 's'), ('o', 'f', 't'), ('o', 'f', 'st'),
+                 ('r', 'p', '-'), ('r', 'p', 's'), ('r', 'p', 'ss'), ('r', 'p', 'st'), ('r', 'p', 'sssss'), ('r', 'w', 's'), ('r', 'w', 'ss'),
+                 ('r', 'w', 't'), ('r', 'w', 'ssssss'), ('r', 'f', 's'), ('r', 'f', 't'), ('r', 'f', 'sst'), ('r', 'f', 'ssssst')]
+SWEEP_NAMES = {'o': 'SignalOnly', 'r': 'WithRawSiginfo', 'p': 'pending()', 'w': 'wait()', 'f': 'forever().next()'}
+C09_KINDS = ('LOST', 'BLOCKED', 'CRASH')
+C10_KINDS = ('EXTRA', 'UNWATCHED', 'FIELD', 'ORDER', 'CRASH')
+
+
+def sweep_one(cfg, konly=None, timeout=240):
+    cmd = [common.bin_path('p_nested_iter')] + list(cfg) + ([str(konly)] if konly else [])
+    rc, out, _ = common.sh(cmd, timeout=timeout)
+    rows, end = [], None
+    for l in out.split('\n'):
+        p = l.split(' ', 2)
+        if p[0] == 'K' and len(p) == 3:
+            verdict, _, rest = p[2].partition(' | ')
+            kinds = sorted(set(w for part in verdict[4:].split('; ') for w in [part.split(' ', 1)[0]])) if verdict.startswith('BAD') else []
+            rows.append({'k': int(p[1]), 'kinds': kinds, 'verdict': verdict, 'yields': rest})
+        elif p[0] == 'X' and len(p) == 3:
+            rows.append({'k': int(p[1]), 'kinds': ['BLOCKED' if p[2].strip() == 'signal 14' else 'CRASH'], 'yields': '',
+                         'verdict': 'the consumer blocked with the delivery unreported (killed by the 5 s alarm)' if p[2].strip() == 'signal 14'
+                         else 'the process died: ' + p[2]})
+        elif p[0] == 'P':
+            rows.append({'k': int(p[1]) if len(p) > 1 and p[1].isdigit() else 0, 'kinds': ['CRASH'], 'verdict': 'panic: ' + l, 'yields': ''})
+        elif p[0] == 'E':
+            end = int(p[1])
+    return {'cfg': cfg, 'rows': rows, 'end': end, 'rc': rc, 'tail': out[-300:]}
+
+
+def instr_sweep(ctx, want):
+    from concurrent.futures import ThreadPoolExecutor
+    with ThreadPoolExecutor(max_workers=12) as ex:
+        results = list(ex.map(sweep_one, SWEEP_CONFIGS))
+    hits, total, incomplete, per = {}, 0, [], {}
+    for res in results:
+        e, o, pre = cfg = res['cfg']
+        name = '%s, %s after deliveries "%s"' % (SWEEP_NAMES[e], SWEEP_NAMES[o], pre)
+        per['/'.join(cfg)] = res['end']
+        if res['end'] is None:
+            incomplete.append('%s: %s' % (name, res['tail']))
+        for row in res['rows']:
+            total += 1
+            ctx.evaluations += 1
+            for kind in row['kinds']:
+                hits[kind] = hits.get(kind, 0) + 1
+                if kind in want and hits[kind] <= 3:
+                    ctx.violation({'monitor': 'instr-' + kind, 'exf': e, 'outer': o, 'pre': pre, 'k': row['k']},
+                                  '%s, one more SIGUSR1 delivered after %d instructions of the call: %s [%s]' % (name, row['k'], row['verdict'], row['yields']),
+                                  {'instr_sweep': {'exf': e, 'outer': o, 'pre': pre, 'k': row['k']}, 'observed': row})
+    ctx.correspondence('instruction-level delivery sweep ran to the end in all %d configurations' % len(SWEEP_CONFIGS), not incomplete, incomplete[:3])
+    ctx.coverage['instruction_delivery_sweep'] = {'configurations': len(SWEEP_CONFIGS), 'boundaries': total, 'complaints': hits, 'boundaries_per_configuration': per}
+    ctx.traces += total - sum(hits.values())
+
+
+def instr_replay(ctx, c, want):
+    n = c['instr_sweep']
+    ctx.harness(['p_nested_iter'])
+    res = sweep_one((n['exf'], n['outer'], n['pre']), konly=n['k'], timeout=60)
+    bad = False
+    for row in res['rows']:
+        print('k=%d %s | %s' % (row['k'], row['verdict'], row['yields']))
+        if row['k'] == n['k'] and any(k in want for k in row['kinds']):
+            print('REPRODUCED:', row['verdict']); bad = True
+    return 1 if bad else 0
